@@ -152,6 +152,12 @@ def run(chk, w):
             return None
 
         def on_edge(br, succ, u, facts):
+            if u == NOTHING and br.op == "br" and "cond" in br.d and br["t"] != br.get("f"):
+                # a report handled on the branch where the segment is found to be free already ('nothing to do') carries the same
+                # obligation as marking it free: its address list must be emptied or known empty
+                pol = _occ_polarity(P, f, br["cond"])
+                if pol is not None and ((succ == br["t"]) != pol):
+                    return ("yes", br.id)
             if u == NOTHING:
                 return u
             if u[0] == "cell" and facts.get(u[1]) is not None:
@@ -225,6 +231,28 @@ def run(chk, w):
                 chk.violation("C08-FREE", f.name, "helper-free-without-clear", i.loc(), "%s marks a segment free through a helper that does not always empty the address list (line %d)" % (f.name, i.line))
             else:
                 chk.ok("C08-FREE", 1, {"function": f.name})
+
+
+def _occ_polarity(P, f, cond):
+    """True if cond is true exactly when the loaded occupied flag is non-zero, False if negated, None if cond is not just that flag"""
+    pol = True
+    o = cond
+    for _ in range(8):
+        i = f.resolve(rules.strip_casts(f, o))
+        if i is None:
+            return None
+        if i.op == "load":
+            return pol if rules.field_path_of_ptr(P, f, i["ptr"]) == OCC else None
+        if i.op == "icmp" and rules.const_of(f, i["b"]) == 0 and i["pred"] in ("eq", "ne"):
+            if i["pred"] == "eq":
+                pol = not pol
+            o = i["a"]
+        elif i.op == "xor" and rules.const_of(f, i["b"]) in (1, -1):
+            pol = not pol
+            o = i["a"]
+        else:
+            return None
+    return None
 
 
 def _is_reset(P, f):
